@@ -1,3 +1,32 @@
-From Flodym Require Import Base.ND.
-Theorem placeholder : True. Proof. exact I. Qed.
-Print Assumptions placeholder.
+(* C17 — recomputing a stock reflects its current inputs only.  Statements only. *)
+From Coq Require Import List.
+Import ListNotations.
+From Flodym Require Import Model.Lifetime Proofs.C17Proofs.
+
+(* For every history of set_prms / table reads on a lifetime-model object (any parameter and table
+   types, any table function), the cached table is absent or the table of the CURRENT parameters. *)
+Theorem C17_cache_invariant :
+  forall (Prm Tab : Type) (table : Prm -> Tab) (p0 : Prm) (ops : list (lop Prm)),
+  cache_ok Prm Tab table (fold_left (lstep Prm Tab table true) ops (lm_new Prm Tab p0)).
+Proof. exact cache_inv. Qed.
+Print Assumptions C17_cache_invariant.
+
+(* Whatever compute() derives from the survival table, after any history it equals the result on a
+   freshly built object holding the parameters of the last set_prms. *)
+Theorem C17_recompute_equals_fresh :
+  forall (Prm Tab : Type) (table : Prm -> Tab) (Res : Type) (compute : Tab -> Res) (p0 : Prm) (ops : list (lop Prm)),
+  compute (snd (lm_sf Prm Tab table (fold_left (lstep Prm Tab table true) ops (lm_new Prm Tab p0))))
+  = compute (snd (lm_sf Prm Tab table (lm_new Prm Tab (last_prms Prm p0 ops)))).
+Proof. exact recompute_fresh. Qed.
+Print Assumptions C17_recompute_equals_fresh.
+
+Theorem C17_compute_twice_changes_nothing :
+  forall (Prm Tab : Type) (table : Prm -> Tab) (m : lm Prm Tab),
+  snd (lm_sf Prm Tab table (fst (lm_sf Prm Tab table m))) = snd (lm_sf Prm Tab table m).
+Proof. exact compute_idempotent. Qed.
+Print Assumptions C17_compute_twice_changes_nothing.
+
+(* non-vacuity: a history with a read, a re-parameterisation and another read *)
+Example ex_C17_history :
+  snd (lm_sf nat nat (fun p => p * 10) (fold_left (lstep nat nat (fun p => p * 10) true) [LRead nat; LSetPrms nat 2; LRead nat] (lm_new nat nat 1))) = 20.
+Proof. reflexivity. Qed.
